@@ -3,6 +3,7 @@ fn main() {
     ctx.self_test("allocator", vp_core::alloc::self_test());
     match ctx.id.as_str() {
         "C09" => vp_graph::c09::run(&mut ctx),
+        "C16" => vp_graph::c16::run(&mut ctx),
         other => {
             eprintln!("vp_graph: unknown property {}", other);
             std::process::exit(2);
